@@ -135,6 +135,10 @@ def parse_config_file(path: str, kwargs: dict):
         elif key.lower() == "out":
             kwargs["outfile"] = val
 
+        elif key.lower() in ["comment", "source"]:
+            # free text: the words true and false are not switches here
+            kwargs[key.lower()] = val
+
         elif val.lower() == "true":
             kwargs[key.lower()] = True
 
